@@ -2,7 +2,8 @@
    client impact.  Statements only; proofs are in Proofs/DifferProofs.v. *)
 From PyGql Require Import Schema.SchemaFull Schema.DifferModel Spec.DifferSpec Spec.DifferClientSpec
   Spec.DifferChangeSpec Proofs.DifferProofs Proofs.DifferEditProofs Proofs.DifferSoundProofs
-  Proofs.DifferClientProofs Proofs.DifferTrueProofs Proofs.DifferGuardProofs.
+  Proofs.DifferClientProofs Proofs.DifferTrueProofs Proofs.DifferGuardProofs
+  Proofs.DifferSafeRetypeProofs Spec.DifferShapeSpec.
 From Coq Require Import Permutation.
 
 (* Output positions: when the differ's (repaired) output predicate calls a
@@ -191,6 +192,93 @@ Proof.
   - apply guard_merge_rule. exact Hg.
 Qed.
 Print Assumptions C20_no_breaking_sound_guarded.
+
+(* The open finding, bounded from both sides.
+   (a) Every retype of an existing field / argument / input field / directive
+       argument that the differ's predicate calls safe yields NO change at all
+       (converse of C20_edit_reported_partial + C20_reportable_exact: the
+       unreported edits are exactly the safe retypes). *)
+Theorem C20_safe_retype_unreported : forall e s,
+  wf_schema s -> safe_retype e s -> diff_model s (apply_edit e s) = [].
+Proof. exact safe_retype_unreported. Qed.
+Print Assumptions C20_safe_retype_unreported.
+
+(* (b) Such a retype is really safe for every operation and every rule of
+       [op_ok] (all schema-dependent rules but OverlappingFieldsCanBeMerged),
+       input positions and output positions alike. *)
+Theorem C20_safe_retype_really_safe : forall scalar_lit e s op,
+  wf_schema s -> safe_retype e s ->
+  same_builtins s (apply_edit e s) -> wf_schema (apply_edit e s) ->
+  (forall dn d, find_dir (s_dirs s) dn = Some d -> d_specified d = true ->
+                find_dir (s_dirs (apply_edit e s)) dn = Some d) ->
+  (forall k, root_of s k = root_of (apply_edit e s) k) ->
+  op_ok scalar_lit s op -> op_ok scalar_lit (apply_edit e s) op.
+Proof.
+  intros scalar_lit e s op Hw Hs Hb Hw' Hd Hr. apply C20_no_breaking_sound_partial; try assumption.
+  rewrite (safe_retype_unreported e s Hw Hs). reflexivity.
+Qed.
+Print Assumptions C20_safe_retype_really_safe.
+
+(* (c) ... and NOT for OverlappingFieldsCanBeMerged: the safe output retype
+       A.x : Int -> Int! is unreported, the operation
+         { u { ... on A { x } ... on B { x } } }
+       is valid for [op_ok] and satisfies SameResponseShape against the old
+       schema, and violates SameResponseShape against the new one (x: Int! vs
+       x: Int in one merged scope).  A documented exception (graphql-js has the
+       same one); it concerns output retypes only -- the rule never looks at
+       argument or input-field types. *)
+Definition shape_schema (t : ty) : schema :=
+  let fld n ty_ := mkField (S n) ty_ [] None None in
+  mkSchema [ mkType (S "Int") false true BScalar;
+             mkType (S "A") false false (BObject [] [fld "x" t] None);
+             mkType (S "B") false false (BObject [] [fld "x" (TyNamed (S "Int"))] None);
+             mkType (S "U") false false (BUnion [S "A"; S "B"]);
+             mkType (S "Query") false false (BObject [] [fld "u" (TyNamed (S "U"))] None) ]
+           [] (Some (S "Query")) None None None.
+Definition shape_op : operation :=
+  mkOp OQuery [] []
+    [CField (S "u") [] []
+       [CInline (Some (S "A")) [] [CField (S "x") [] [] []];
+        CInline (Some (S "B")) [] [CField (S "x") [] [] []]]] [].
+
+Theorem C20_same_response_shape_refuted :
+  let o := shape_schema (TyNamed (S "Int")) in
+  let e := ERetypeField (S "A") (S "x") (TyNonNull (TyNamed (S "Int"))) in
+  safe_retype e o /\ diff_model o (apply_edit e o) = []
+  /\ op_ok (fun _ _ => false) o shape_op
+  /\ same_response_shape o 5 shape_op = true
+  /\ same_response_shape (apply_edit e o) 5 shape_op = false.
+Proof.
+  split; [|split; [vm_compute; reflexivity|split; [|split; vm_compute; reflexivity]]].
+  - eexists. eexists. split; [vm_compute; reflexivity|]. split; [vm_compute; reflexivity|].
+    split; [discriminate|vm_compute; reflexivity].
+  - assert (Hx : forall vars frs p, (p = S "A" \/ p = S "B") ->
+              csel_ok (fun _ _ => false) (shape_schema (TyNamed (S "Int"))) vars frs
+                      (CField (S "x") [] [] []) p).
+    { intros vars frs p [->| ->]; simpl; eexists; eexists;
+        (split; [split; vm_compute; reflexivity|]);
+        (split; [split; [constructor|intros a []]|]);
+        (split; [constructor|vm_compute; reflexivity]). }
+    assert (Hp : forall obj, (obj = S "A" \/ obj = S "B") ->
+              possible_of (shape_schema (TyNamed (S "Int"))) (S "U") obj
+              /\ possible_of (shape_schema (TyNamed (S "Int"))) obj obj).
+    { intros obj [->| ->]; split; eexists; eexists; eexists;
+        (split; [vm_compute; reflexivity|]); try (left; reflexivity);
+        right; left; eexists; (split; [vm_compute; reflexivity|]); simpl; auto. }
+    exists (S "Query"). split; [reflexivity|]. split; [vm_compute; discriminate|].
+    split; [constructor|]. split; [constructor|]. split; [|constructor].
+    constructor; [|constructor]. simpl. eexists. eexists.
+    split; [split; vm_compute; reflexivity|].
+    split; [split; [constructor|intros a []]|]. split; [constructor|].
+    change (is_leaf (shape_schema (TyNamed (S "Int"))) (unwrap (TyNamed (S "U")))) with false. cbv iota.
+    split; [discriminate|]. split; [vm_compute; discriminate|].
+    split; [|split; [|exact I]].
+    + split; [vm_compute; discriminate|]. split; [exists (S "A"); apply Hp; left; reflexivity|].
+      split; [constructor|]. split; [apply (Hx _ []); left; reflexivity|exact I].
+    + split; [vm_compute; discriminate|]. split; [exists (S "B"); apply Hp; right; reflexivity|].
+      split; [constructor|]. split; [apply (Hx _ []); right; reflexivity|exact I].
+Qed.
+Print Assumptions C20_same_response_shape_refuted.
 
 (* non-vacuity: query ($v: Int!) { f(x: $v) ... on Query { f(x: 3) } ...F }
                  fragment F on Query { f(x: 3) }
